@@ -541,6 +541,112 @@ func splitTokens(r *hx.Rng, b []byte) []token {
 	return ts
 }
 
+// ---------- connection storm: many rewritten handshakes at the same time ----------
+//
+// Every connection of the storm goes through ONE proxy and a route with modifyVirtualHost, so each dial re-encodes its
+// handshake; all connections differ in protocol, port, address length and carry their own tag as trailing bytes.  Each
+// connection is then judged on its own as an ordinary `fwd` case: on correct code what a backend connection receives
+// depends only on its own client, however the connections interleave.
+
+func storm(run *hx.Run, l *listener, n, par int) {
+	route := liteconfig.Route{
+		Host:              configutil.SingleOrMulti[string]{"*"},
+		Backend:           configutil.SingleOrMulti[string]{fmt.Sprintf("127.0.0.1:%d", l.port)},
+		ModifyVirtualHost: true,
+		Strategy:          liteconfig.StrategySequential,
+	}
+	cfg := baseConfig()
+	cfg.Lite.Routes = []liteconfig.Route{route}
+	p, err := proxy.New(proxy.Options{Config: &cfg, EventMgr: event.New()})
+	if err != nil {
+		panic(err)
+	}
+	// backend side: collect what every accepted connection receives, keyed by the trailing tag
+	var mu sync.Mutex
+	got := map[string][]byte{}
+	var bwg sync.WaitGroup
+	stop := make(chan struct{})
+	accDone := make(chan struct{})
+	serve := func(bc net.Conn) {
+		bwg.Add(1)
+		go func() {
+			defer bwg.Done()
+			defer bc.Close()
+			_ = bc.SetDeadline(time.Now().Add(caseTimeout))
+			b, _ := io.ReadAll(bc)
+			if len(b) >= 8 {
+				mu.Lock()
+				got[string(b[len(b)-8:])] = b
+				mu.Unlock()
+			}
+		}()
+	}
+	go func() {
+		defer close(accDone)
+		for {
+			select {
+			case bc, ok := <-l.ch:
+				if !ok {
+					return
+				}
+				serve(bc)
+			case <-stop:
+				return
+			}
+		}
+	}()
+	type conn struct {
+		tag   []byte
+		frame []byte
+		ip    net.IP
+		port  int
+	}
+	conns := make([]conn, n)
+	protos := []int32{765, 47, 770, 4, 2147483647}
+	for i := range conns {
+		addr := fmt.Sprintf("s%d.example.com\x00%s", i, strings.Repeat("p", i%23))
+		h := plainHS(addr, protos[i%len(protos)], uint16(i*7+1), 2)
+		tag := []byte(fmt.Sprintf("T%07d", i))
+		conns[i] = conn{tag: tag, frame: h.frame(), ip: net.IPv4(203, 0, byte(i>>8), byte(i)), port: 1024 + i%60000}
+	}
+	var wg sync.WaitGroup
+	sem := make(chan struct{}, par)
+	for i := range conns {
+		wg.Add(1)
+		sem <- struct{}{}
+		go func(c conn) {
+			defer wg.Done()
+			defer func() { <-sem }()
+			cl, sv := e2e.Pipe(&net.TCPAddr{IP: c.ip, Port: c.port}, &net.TCPAddr{IP: net.IPv4(10, 0, 0, 2), Port: 25565})
+			done := make(chan struct{})
+			go func() { defer close(done); p.HandleConn(sv) }()
+			_, _ = cl.Write(append(append([]byte{}, c.frame...), c.tag...))
+			cl.Close()
+			select {
+			case <-done:
+			case <-time.After(caseTimeout):
+			}
+		}(conns[i])
+	}
+	wg.Wait()
+	close(stop)
+	<-accDone
+	for _, bc := range l.barrier() {
+		serve(bc)
+	}
+	bwg.Wait()
+	for _, c := range conns {
+		op := fmt.Sprintf("fwd 010 %s %s %s %s 0 1 1 %s -", addrSpec(c.ip, c.port), addrSpec(net.IPv4(127, 0, 0, 1), l.port),
+			hx.HexS("127.0.0.1"), hx.HexS((&net.TCPAddr{IP: c.ip, Port: c.port}).String()),
+			showTokens([]token{lit(append(append([]byte{}, c.frame...), c.tag...))}))
+		out := "nodial"
+		if b, ok := got[string(c.tag)]; ok {
+			out = "dial " + showStream(b) + " -"
+		}
+		run.Case("storm", op, out)
+	}
+}
+
 func main() {
 	run := hx.Start()
 	r := run.Rng
@@ -700,6 +806,7 @@ func main() {
 		}
 		runCase(run, l, cs)
 	}
+	storm(run, l, run.Scale(12000, 40000), 32)
 	l.ln.Close()
 	run.Finish()
 }
